@@ -1,4 +1,5 @@
-// F12: strquote.Append does not escape '"', '\'' and '\\'.
+// F12: strquote.Append does not escape the double-quote, single-quote and
+// backslash bytes.
 //
 // Defect (/repo/internal/strquote/strquote.go):
 //
